@@ -332,6 +332,54 @@ func runC01(c *Ctx) {
 			c.check(len(bad) == 0, "boundary-pairing", fnKey(cl), p.FnPos(cl), "sweep and round-pot reset happen together", "round boundary half done", uniq(bad, 3)...)
 		}
 		c.floor("boundary-pairing", "round-boundary callers", n, 3)
+		// the sweep reaches every player: in a sweeper's loop over the players no iteration ends without
+		// the wager having been moved (a folded player's last wager is swept like any other, or the
+		// wagers on the table no longer add up to the round pot, which IS reset for all)
+		for _, f := range sweepers {
+			s := eg.summ(0)
+			owner := f
+			s.HelperInline = func(h *ssa.Function) bool { return privateHelper(owner, h) && !eg.MayEmit[h] }
+			fp, _ := s.Function(f)
+			var bad []string
+			nLoop := 0
+			seenSw := map[*Loop]bool{}
+			for _, ps := range fp {
+				for _, e := range ps.Events {
+					if e.Kind != "loop" || seenSw[e.Loop] {
+						continue
+					}
+					seenSw[e.Loop] = true
+					body, _ := s.LoopBody(e.InFn, e.Loop)
+					sweeps := false
+					for _, bp := range body {
+						for _, st := range bp.storesTo("pokerface.PlayerState.Wager") {
+							if v, ok := st.Val.isConstInt(); ok && v == 0 {
+								sweeps = true
+							}
+						}
+					}
+					if !sweeps {
+						continue
+					}
+					nLoop++
+					if ri := analyseRange(e.Loop); !ri.Full || len(e.Loop.Exits) != 1 {
+						bad = append(bad, "the sweep does not visit every player")
+					}
+					for _, bp := range body {
+						done := false
+						for _, st := range bp.storesTo("pokerface.PlayerState.Wager") {
+							if v, ok := st.Val.isConstInt(); ok && v == 0 {
+								done = true
+							}
+						}
+						if !done && bp.End == "continue" {
+							bad = append(bad, "a player is skipped by the sweep under ["+bp.CondString()+"]")
+						}
+					}
+				}
+			}
+			c.check(len(bad) == 0 && nLoop > 0, "boundary-pairing", fnKey(f)+"#sweep-all", p.FnPos(f), "every player's wager is swept", "some players keep their wager across the round boundary", uniq(bad, 2)...)
+		}
 		// the reset itself is unconditional: a resetter zeroes the round pot on every one of its paths
 		// (a variant-dependent reset leaves last street's chips in the round pot of the next)
 		for _, f := range resetters {
@@ -586,6 +634,15 @@ func runC01(c *Ctx) {
 							nFresh++
 						default:
 							nMerge++
+							// the pot merged into stays the accumulator: it is the one that was put on the
+							// result list, and the next level with the same players must reach it too
+							B := strings.TrimSuffix(e.Loc, ".Total")
+							if strings.HasPrefix(B, "iter:") {
+								phi := B[strings.LastIndex(B, ".")+1:]
+								if back := ps.Store["backedge:"+phi]; back != nil && back.String() != B {
+									bad = append(bad, "after a merge the accumulating pot is replaced by "+back.String()+": a third level with the same players is merged into a pot that is not on the list ("+e.Pos+")")
+								}
+							}
 						}
 					}
 				}
